@@ -1,5 +1,5 @@
 SPECIFICATION JSpec
-CONSTANT MaxDev = 13
+CONSTANT MaxDev = 0
 CONSTANT MaxLen = 9
 INVARIANT Report
 CHECK_DEADLOCK FALSE
